@@ -69,6 +69,8 @@ func SpecInterleave(w string, ev string, k int) string {
 }
 
 //@ contract CmdLine.regexpChar
+//@   rtc recv NewCmdLine(NewContext(context.New("/nonexistent-root", "toolchain.yaml")), CmdLineUnix)
+//@   rtc import "github.com/coreruleset/crs-toolchain/v2/context"
 //@   tags C04
 //@   results r
 //@   requires ascii: char < 128
@@ -78,6 +80,8 @@ func SpecInterleave(w string, ev string, k int) string {
 // is stripped and selects the suffix / no-space suffix pattern; an escaped final byte loses
 // its backslash; anything else is unchanged with no suffix.
 //@ contract CmdLine.computeSuffix
+//@   rtc recv NewCmdLine(NewContext(context.New("/nonexistent-root", "toolchain.yaml")), CmdLineUnix)
+//@   rtc import "github.com/coreruleset/crs-toolchain/v2/context"
 //@   tags C04 C19
 //@   results stripped suffix
 //@   ensures short: implies(len(input) < 2, stripped == input && suffix == "")
@@ -90,6 +94,8 @@ func SpecInterleave(w string, ev string, k int) string {
 // interleaved with the anti-evasion pattern and, when a suffix marker was given, followed by
 // the anti-evasion pattern and the selected suffix pattern.
 //@ contract CmdLine.regexpStr
+//@   rtc recv NewCmdLine(NewContext(context.New("/nonexistent-root", "toolchain.yaml")), CmdLineUnix)
+//@   rtc import "github.com/coreruleset/crs-toolchain/v2/context"
 //@   tags C04 C19
 //@   results r
 //@   requires ascii: forall(0, len(input), func(i int) bool { return input[i] < 128 })
